@@ -21,12 +21,12 @@ LEVEL = 'exploration'
 EXHAUSTIVE = True
 RULE = ('finite family of smooth ODEs (autonomous: linear, logistic, oscillator; non-autonomous: cos t, -2ty, the same started where the right-hand side is exactly zero, '
         'y cos t, t^2-y, temperature-ramp forcing, coupled vector) x 3 initial values x {Euler, RK4} x '
-        '{direct iterator call, GenericModel.solve}; enumerated completely; a case is non-trivial when its error '
+        '{direct iterator call, GenericModel.solve, two models through Coupler.solve}; enumerated completely; a case is non-trivial when its error '
         'sequence is in the asymptotic regime (errors > 1e3 x rounding and decreasing); distinct by (problem, y0, iterator, path)')
 REQUIRED_MONITORS = ['stage_times', 'input_intact', 'order', 'exact_poly']
-REACH = ['solver/Iterators.py:ExplicitEulerIterator', 'solver/Iterators.py:RK4Iterator',
+REACH = ['GenericModel.py:Coupler.getdXdt', 'solver/Iterators.py:ExplicitEulerIterator', 'solver/Iterators.py:RK4Iterator',
          'solver/Solver.py:DESolver.solve', 'solver/Solver.py:DESolver._getdXdt', 'solver/Solver.py:DESolver._updateX']
-MIN_NONTRIVIAL = {'quick': 60, 'thorough': 60}
+MIN_NONTRIVIAL = {'quick': 90, 'thorough': 90}
 CASE_TIMEOUT = 300
 ASSUMPTIONS = ['order is a limit statement; it is restated on step-halving sequences h..h/8 of a fixed problem family',
                'closed-form solutions of the family are the reference']
@@ -96,10 +96,10 @@ def plan(tier, seed):
         kind = 'vector' if name in ('oscillator', 'vector_nonauto') else 'scalar'
         for y0 in Y0S[kind]:
             for it in ('euler', 'rk4'):
-                for path in ('direct', 'solve'):
+                for path in ('direct', 'solve', 'coupler'):
                     cases.append({'kind': 'order', 'problem': name, 'y0': y0, 'iterator': it, 'path': path})
     for it in ('euler', 'rk4'):
-        for path in ('direct', 'solve'):
+        for path in ('direct', 'solve', 'coupler'):
             for deg in range(0, 4):
                 cases.append({'kind': 'poly', 'degree': deg, 'iterator': it, 'path': path})
             for deg in range(1, 4):     # right-hand side exactly zero at the start of the first step
@@ -108,7 +108,7 @@ def plan(tier, seed):
         kind = 'vector' if name.startswith('vector') else 'scalar'
         for y0 in Y0S[kind]:
             for it in ('euler', 'rk4'):
-                for path in ('direct', 'solve'):
+                for path in ('direct', 'solve', 'coupler'):
                     cases.append({'kind': 'order', 'problem': name, 'y0': y0, 'iterator': it, 'path': path, 't0': 0.0})
     return cases
 
@@ -199,8 +199,63 @@ def _integrate_solve(case, R, f, y0, t0, tend, nsteps, check_stages=True):
     return np.atleast_1d(np.array(m.y, dtype=float))
 
 
+def _integrate_coupler(case, R, f, y0, t0, tend, nsteps, check_stages=True):
+    """Two models with differently shaped states solved through kawin.GenericModel.Coupler (its clock starts at 0, the
+    problem time is t0 + coupler time). Added after seeded change C06-c: the coupler handed every stage the sub-model's
+    recorded time instead of the stage time."""
+    from kawin.GenericModel import GenericModel, Coupler
+    from kawin.solver.Solver import SolverType
+    h = (tend - t0) / nsteps
+    vec = np.ndim(y0) > 0
+
+    class M(GenericModel):
+        def __init__(self, f, y0, vec):
+            super().__init__()
+            self.f, self.vec = f, vec
+            self.t = 0.0
+            self.y = np.array(y0, dtype=float) if vec else float(y0)
+            self.times, self.steps = [], []
+
+        def getCurrentX(self):
+            return self.t, [self.y]
+
+        def getdXdt(self, t, x):
+            self.times.append(float(t))
+            return [np.asarray(self.f(t0 + t, x[0]), dtype=float) if self.vec else float(self.f(t0 + t, x[0]))]
+
+        def getDt(self, dXdt):
+            return h
+
+        def postProcess(self, time, x):
+            self.steps.append((self.t, float(time), self.times))
+            self.times = []
+            self.t = time
+            self.y = np.array(x[0], dtype=float) if self.vec else float(x[0])
+            return x, False
+    a = M(f, y0, vec)
+    b = M(lambda t, y: np.array([np.cos(t) - y[0], -0.5 * t * y[1], 0.1 * t * t]), [0.3, 1.0, 0.0], True)
+    c = Coupler([a, b])
+    st = SolverType.EXPLICITEULER if case['iterator'] == 'euler' else SolverType.RK4
+    c.solve(tend - t0, solverType=st, minDtFrac=1e-12, maxDtFrac=1.0)
+    if check_stages:
+        for mi, m in enumerate((a, b)):
+            for (ta, tb, times) in m.steps[:3]:
+                hh = tb - ta
+                exp = _expected_stage_times(case['iterator'], ta, hh)
+                ok = len(times) == len(exp) and all(abs(x - y) <= 1e-12 * max(1.0, abs(y)) for x, y in zip(times, exp))
+                R.check('stage_times', ok, {'iterator': case['iterator'], 'path': 'coupler', 'model': mi},
+                        observed=times, expected=exp, t=ta, h=hh)
+    # the third component of the second coupled model integrates 0.1 t^2 (problem time): exact for RK4
+    if case['iterator'] == 'rk4':
+        ex = 0.1 * (tend ** 3 - t0 ** 3) / 3
+        R.check('exact_poly', abs(b.y[2] - ex) <= 1e-13, {'iterator': 'rk4', 'path': 'coupler', 'component': 'second model'},
+                got=b.y[2], exact=ex)
+    R.info['steps_last'] = len(a.steps)
+    return np.atleast_1d(np.array(a.y, dtype=float))
+
+
 def run_case(case, R):
-    integ = _integrate_direct if case['path'] == 'direct' else _integrate_solve
+    integ = {'direct': _integrate_direct, 'solve': _integrate_solve, 'coupler': _integrate_coupler}[case['path']]
     if case['kind'] == 'poly':
         deg = case['degree']
         coef = [0.7, -1.1, 0.9, 0.4][:deg + 1]
